@@ -686,3 +686,112 @@ Proof.
   { eapply (uniq_inj (litems l)); eauto; apply M; [left|right]; auto. apply -> in_rev. auto. }
   subst. eapply D; eauto. apply -> in_rev. auto.
 Qed.
+
+(* ---- the Flatten cache ----------------------------------------------------- *)
+Definition nle (a b : tx) : Prop := t_nonce a <= t_nonce b.
+
+Lemma ins_head x s : Forall (nle x) s -> StronglySorted nle s -> ins by_nonce x s = x :: s.
+Proof.
+  intros F _. destruct s as [|y r]; cbn; auto. inversion F; subst. unfold by_nonce, nle in *.
+  destruct (N.leb (t_nonce x) (t_nonce y)) eqn:E; auto. lia.
+Qed.
+Lemma sort_sorted_id s : StronglySorted nle s -> sort_nonce s = s.
+Proof.
+  unfold sort_nonce. induction s as [|a r IH]; intro S; cbn; auto. inversion S; subst.
+  rewrite IH by auto. apply ins_head; auto.
+Qed.
+
+Lemma filter_ins f x s :
+  StronglySorted nle s ->
+  filter f (ins by_nonce x s) = if f x then ins by_nonce x (filter f s) else filter f s.
+Proof.
+  induction s as [|y r IH]; intro S; cbn.
+  - destruct (f x); auto.
+  - inversion S; subst. unfold by_nonce at 1. destruct (N.leb (t_nonce x) (t_nonce y)) eqn:E; cbn.
+    + destruct (f x) eqn:Fx; auto. destruct (f y) eqn:Fy; cbn.
+      * unfold by_nonce at 1. rewrite E. auto.
+      * (* x is below everything that survives *)
+        symmetry. apply ins_head.
+        -- apply Forall_forall. intros z Hz. apply filter_In in Hz as [Hz _].
+           rewrite Forall_forall in H2. specialize (H2 z Hz). unfold nle in *. lia.
+        -- clear -H1. induction H1; cbn; [constructor|]. destruct (f a); auto. constructor; auto.
+           apply Forall_forall. intros z Hz. apply filter_In in Hz as [Hz _]. rewrite Forall_forall in H. auto.
+    + rewrite IH by auto. destruct (f y) eqn:Fy; destruct (f x) eqn:Fx; cbn; auto.
+      unfold by_nonce at 2. rewrite E. auto.
+Qed.
+Lemma sort_filter f l : sort_nonce (filter f l) = filter f (sort_nonce l).
+Proof.
+  unfold sort_nonce. induction l as [|a r IH]; cbn; auto.
+  rewrite filter_ins by apply sort_nonce_sorted. destruct (f a); cbn; auto. rewrite IH. auto.
+Qed.
+
+Lemma sorted_filter_ge th s :
+  StronglySorted nle s ->
+  filter (fun t => negb (N.ltb (t_nonce t) th)) s = skipn (length (filter (fun t => N.ltb (t_nonce t) th) s)) s.
+Proof.
+  induction s as [|a r IH]; intro S; cbn; auto. inversion S; subst.
+  destruct (N.ltb (t_nonce a) th) eqn:E; cbn; auto.
+  assert (K : forall z, In z r -> N.ltb (t_nonce z) th = false).
+  { intros z Hz. rewrite Forall_forall in H2. specialize (H2 z Hz). unfold nle in H2. lia. }
+  assert (filter (fun t => N.ltb (t_nonce t) th) r = []) as ->.
+  { clear -K. induction r as [|b r IH]; cbn; auto. rewrite K by (left; auto). apply IH. intros. apply K. right. auto. }
+  cbn. f_equal. clear -K. induction r as [|b r IH]; cbn; auto. rewrite K by (left; auto). cbn. f_equal.
+  apply IH. intros. apply K. right. auto.
+Qed.
+
+Lemma sorted_firstn k s : StronglySorted nle s -> StronglySorted nle (firstn k s).
+Proof.
+  revert k. induction s as [|a r IH]; intros k S; destruct k; cbn; try constructor.
+  - inversion S; subst. auto.
+  - inversion S; subst. apply Forall_forall. intros z Hz. rewrite Forall_forall in H2. apply H2.
+    rewrite <- (firstn_skipn k r). apply in_or_app. auto.
+Qed.
+
+Definition ccok (m : smap) : Prop :=
+  match cache m with Some c => c = sort_nonce (items m) | None => True end.
+
+Lemma cc_put m t : ccok (sm_put m t). Proof. exact I. Qed.
+Lemma cc_forward m th rm m' : sm_forward m th = (rm, m') -> ccok m -> ccok m'.
+Proof.
+  unfold sm_forward, ccok. intro H. invp H. cbn. destruct (cache m) as [c|]; auto. intros ->.
+  rewrite sort_filter, (sorted_filter_ge th _ (sort_nonce_sorted (items m))). f_equal.
+  rewrite <- sort_filter. unfold sort_nonce. rewrite isort_length. auto.
+Qed.
+Lemma cc_filter m f rm m' : sm_filter m f = (rm, m') -> ccok m -> ccok m'.
+Proof. unfold sm_filter. destruct (filter f (items m)); intro H; invp H; auto. intros _. exact I. Qed.
+Lemma cc_cap m th d m' : sm_cap m th = (d, m') -> ccok m -> ccok m'.
+Proof.
+  unfold sm_cap. destruct (Nat.leb (length (items m)) th) eqn:L; intro H; invp H; auto.
+  unfold ccok. cbn. destruct (cache m) as [c|]; auto. intros ->.
+  rewrite (sort_sorted_id (firstn th (sort_nonce (items m)))) by (apply sorted_firstn, sort_nonce_sorted).
+  f_equal. rewrite rev_length, skipn_length. unfold sort_nonce. rewrite isort_length.
+  apply Nat.leb_gt in L. lia.
+Qed.
+Lemma cc_remove m n ok m' : sm_remove m n = (ok, m') -> ccok m -> ccok m'.
+Proof. unfold sm_remove. destruct (sm_get m n); intro H; invp H; auto. intros _. exact I. Qed.
+Lemma cc_ready m s r m' : sm_ready m s = (r, m') -> ccok m -> ccok m'.
+Proof.
+  unfold sm_ready. destruct (min_nonce (items m)); [|intro H; invp H; auto].
+  destruct (N.ltb s n); intro H; invp H; auto. intros _. exact I.
+Qed.
+Lemma cc_flatten m r m' : sm_flatten m = (r, m') -> ccok m -> ccok m' /\ r = sort_nonce (items m).
+Proof.
+  unfold sm_flatten, ccok. destruct (cache m) eqn:E; intro H; invp H; cbn.
+  - rewrite E. auto.
+  - auto.
+Qed.
+
+(* strict Filter: every invalidated transaction lies above some removed one *)
+Lemma l_filter_inv_above l c g rm inv l' :
+  l_filter l c g = (rm, inv, l') -> forall x, In x inv -> exists y, In y rm /\ t_nonce y < t_nonce x.
+Proof.
+  unfold l_filter. destruct (N.leb (costcap l) c && N.leb (gascap l) g); [intro H; invp H; intros x []|].
+  destruct (sm_filter (txs l) _) as [removed m1] eqn:F1.
+  destruct removed as [|t0 rest]; [intro H; invp H; intros x []|].
+  destruct (strict l); [|intro H; invp H; intros x []].
+  destruct (sm_filter m1 _) as [invalids m2] eqn:F2. intro H; invp H.
+  pose proof (sm_filter_spec _ _ _ _ F2) as [S3 _]. intros x Hx. apply S3 in Hx as [_ Hx].
+  pose proof (lowest_nonce_spec (t0 :: rest) (t_nonce t0)) as (_ & _ & [E|(y & Hy & E)]).
+  - exists t0. split; [left; auto|]. lia.
+  - exists y. split; auto. lia.
+Qed.
